@@ -23,7 +23,7 @@ REQUIRED_FEATURES = ["encoding:enum", "encoding:int", "map:swap", "map:longer-na
                      "map:partial", "chain:>1", "check:live-object", "check:reopened",
                      "many-contigs:enum-to-int-fallback", "location:nested-group", "location:nested-group+root-cooler",
                      "map:same-dict-object-applied-to-two-coolers", "cooler-object:constructed-with-h5py-options",
-                     "map:unstorable-name-refused", "cooler-object:relative-path-then-chdir",
+                     "map:unstorable-name-refused", "cooler-object:relative-path-then-chdir", "scool:rename-through-another-cell-than-before",
                      "history:rename-through-a-second-older-object"]
 
 
@@ -31,13 +31,20 @@ def plan(tier, seed):
     n = 16 if tier == "quick" else 48
     per = 16 if tier == "quick" else 90
     return [{"kind": "rename", "sub": i, "cases": per} for i in range(n)] + \
-           [{"kind": "many", "sub": i} for i in range(2 if tier == "quick" else 12)]
+           [{"kind": "many", "sub": i} for i in range(2 if tier == "quick" else 12)] + \
+           [{"kind": "scool", "sub": 700 + i, "cases": 6 if tier == "quick" else 40} for i in range(1 if tier == "quick" else 3)]
 
 
 def run(ctx, shard):
     probes.activate(ctx)
     if shard["kind"] == "many":
         many_contigs(ctx, shard)
+        return
+    if shard["kind"] == "scool":
+        for i in range(shard["cases"]):
+            cid = f"sc:{shard['sub']}:{i}"
+            if ctx.want(cid):
+                scool_chain(ctx, cid, ctx.rng("scool", shard["sub"], i))
         return
     rng0 = ctx.rng("plan", shard["sub"])
     for i in range(shard["cases"]):
@@ -334,3 +341,76 @@ def raw_nonname_digest_many(path):
     # bins/chrom may legitimately switch from enum to plain integers: compare codes, not dtype
     with h5py.File(path, "r") as f:
         return h5state.content_digest(f["/"], attrs=True, skip_cols=(("chroms", "name"),))
+
+
+def scool_chain(ctx, cid, rng):
+    """Cells of a single-cell file are coolers too: a chain of renames that goes through one cell, then through
+    ANOTHER cell (using the names that cell reports at that moment), ...  Judged after every step for the cell the
+    rename went through - on the live object and after reopening: names, bin-table labels, name-based lookups.
+    (All cells share one chromosome table, so names renamed through one cell show in its siblings; what a sibling's
+    own bin-table labels say before it is itself renamed through is not judged here - observation O11.)"""
+    import cooler
+
+    bt = gen.gen_bt(rng, None, max_chroms=4, max_bins=9)
+    while len(bt) < 2:
+        bt = gen.gen_bt(rng, None, max_chroms=4, max_bins=9)
+    n = gen.bt_nbins(bt)
+    cells = {f"cell{j}": gen.pixels_frame(gen.gen_pixels(rng, n, True, "sparse70") or {(0, 0): 1 + j}, None)
+             for j in range(int(rng.integers(2, 4)))}
+    path = ctx.path(suffix=".scool")
+    cooler.create_scool(path, gen.bt_frame(bt), cells)
+    cur = [nm for nm, _ in bt]
+    per_bin = [ci for ci, (_, e) in enumerate(bt) for _ in range(len(e) - 1)]
+    with ctx.case(cid, {"bt": bt, "cells": list(cells)}) as c:
+        steps = []
+        last = None
+        for step in range(int(rng.integers(2, 6))):
+            others = [x for x in cells if x != last] or list(cells)
+            cell = others[int(rng.integers(len(others)))]
+            last = cell
+            uri = f"{path}::/cells/{cell}"
+            clr = cooler.Cooler(uri)
+            if not c.check(clr.chromnames == cur, "scool:names-before-step", f"cell {cell} reports {clr.chromnames}, the file's "
+                           f"chromosome table was renamed to {cur}", {"steps": steps}):
+                break
+            before = snapshot(clr, cur)
+            k = int(rng.integers(1, len(cur) + 1))
+            chosen = [cur[int(x)] for x in rng.permutation(len(cur))[:k]]
+            if k >= 2 and rng.random() < 0.4:
+                mp = {chosen[0]: chosen[1], chosen[1]: chosen[0]}
+            else:
+                pool = [x for x in NEW_NAMES if x not in cur]
+                mp = {nm: pool.pop(int(rng.integers(len(pool)))) for nm in chosen if pool}
+            new = [mp.get(x, x) for x in cur]
+            if len(set(new)) != len(new) or not mp:
+                continue
+            steps.append({"through": cell, "map": dict(mp)})
+            cooler.rename_chroms(clr, mp)
+            c.feature("scool:rename-through-cell", "scool:rename-through-another-cell-than-before" if len(steps) > 1 else "scool:first")
+            for tag, obj in (("live-object", clr), ("reopened", cooler.Cooler(uri))):
+                ok = c.check(list(obj.chromnames) == new, f"scool:chromnames-wrong:{tag}",
+                             f"[{tag}] cell {cell}: chromnames {obj.chromnames} != {new}", {"steps": steps})
+                lab = [str(x) for x in obj.bins()[:]["chrom"].tolist()]
+                ok = c.check(lab == [new[ci] for ci in per_bin], f"scool:bin-labels-wrong:{tag}",
+                             f"[{tag}] cell {cell}: bin-table chromosome labels are {sorted(set(lab))}, names are {new}",
+                             {"steps": steps}) and ok
+                if not ok:
+                    break
+                after = snapshot(obj, new)
+                same = all(after[new[i]]["extent"] == before[cur[i]]["extent"] and after[new[i]]["bins"] == before[cur[i]]["bins"]
+                           and after[new[i]]["pixels"] == before[cur[i]]["pixels"]
+                           and np.array_equal(after[new[i]]["matrix"], before[cur[i]]["matrix"]) for i in range(len(cur)))
+                c.check(same, f"scool:lookup-by-new-name-differs:{tag}", f"[{tag}] cell {cell}: a region addressed by a new name "
+                        "does not return what the old name returned", {"steps": steps})
+                jn = obj.pixels(join=True)[:]
+                if len(jn):
+                    ids1 = obj.pixels()[:]["bin1_id"].to_numpy()
+                    c.check([str(x) for x in jn["chrom1"].tolist()] == [new[per_bin[int(i)]] for i in ids1],
+                            f"scool:joined-names-wrong:{tag}", f"[{tag}] cell {cell}: pixels(join=True) carries other names than {new}")
+            cur = new
+            if c.failed:
+                break
+        if len(steps) >= 2:
+            c.nontrivial("scool", repr(bt), repr(steps))
+        ctx.sample({"scool_chain": steps[:3], "cells": len(cells)}, limit=3)
+    os.remove(path)
